@@ -71,6 +71,7 @@ MC_DEPS = {
     "CountR4": ["Hashbrown.tla", "GriddleCount.tla", "MCCount.tla"],
     "Fault": ["Hashbrown.tla", "Griddle.tla", "GriddleCount.tla", "MCGriddle.tla"],
     "Iter": ["Hashbrown.tla", "Griddle.tla", "GriddleCount.tla", "MCGriddle.tla", "MCIter.tla"],
+    "Par": ["MCPar.tla"],
     "Overflow": ["Hashbrown.tla", "GriddleCount.tla", "MCCount.tla"],
     "OverflowDbg": ["Hashbrown.tla", "GriddleCount.tla", "MCCount.tla"],
 }
@@ -84,6 +85,12 @@ MC = {
     "Iter": {
         "quick": ("MCIter", "MCIter", 4, 3600),
         "thorough": ("MCIter", "MCIter5", 8, 3600),
+    },
+    # C15: griddle's rayon bridge (main table, then old table; hashbrown's group-range split) under every
+    # split/steal schedule, every occupancy pattern; with the liveness property Terminates
+    "Par": {
+        "quick": ("MCPar", "MCParQ", 4, 3600),
+        "thorough": ("MCPar", "MCPar", 8, 7200),
     },
     "Fault": {
         "quick": ("MCGriddle", "MCFault", 6, 3600),
@@ -134,7 +141,7 @@ PROPS = {
     "C14": dict(suites=["meta_heap", "meta_plain", "meta_set", "meta_zst"], mc=["Small"],
                 monitors=["eq_is_content_equality", "debug_shows_contents", "lookup_result", "set_contains_result",
                           "iter_yields_each_once", "iter_exact_len", "iter_complete", "len_is_sum", "contents"]),
-    "C15": dict(suites=["par_heap", "par_two", "par_set"], mc=[]),
+    "C15": dict(suites=["par_heap", "par_two", "par_set"], mc=["Par"]),
     "C16": dict(suites=["serde_map", "serde_set", "serde_zst"], mc=["Small"]),
 }
 
